@@ -348,12 +348,21 @@ def minimise(mod, vio: dict, budget_s: float, case_timeout: float) -> dict:
             cand["_minimised"] = True
             # never let one slow candidate (a hang the watchdogs of the case
             # wait for) carry the minimiser past its budget
+            def same(r) -> bool:
+                return (not r.get("ok", True) and not r.get("harness_error")
+                        and r.get("vclass") == best["vclass"] and
+                        (r.get("key") or {}) == (best.get("key") or {}))
+
             res = isolated_run_one(
                 mod, cand, max(3.0, min(case_timeout, 60.0,
                                         deadline - time.time())))
-            if (not res.get("ok", True) and not res.get("harness_error") and
-                    res.get("vclass") == best["vclass"] and
-                    (res.get("key") or {}) == (best.get("key") or {})):
+            # a smaller case is only worth having if it fails every time
+            # (components the simulator does not control - tf.data, native
+            # threads - may make a small case fail by luck): it has to fail
+            # the same way in a second isolated run
+            if same(res) and same(isolated_run_one(
+                    mod, cand, max(3.0, min(case_timeout, 60.0,
+                                            deadline - time.time())))):
                 best = {"case": cand, "vclass": res["vclass"],
                         "detail": res.get("detail", "")[:2000],
                         "key": res.get("key", {}),
